@@ -1,4 +1,5 @@
 """C12 — Snapshots are isolated from later changes; changes cancel, never block (structural clauses)."""
+import re
 from lib import flow as FL
 from lib import effects as EF
 from lib.facts import callee, callee_def
@@ -10,7 +11,7 @@ META = {
     "rule": "K1 every public method of Analysis reaches the database only through with_db, whose body is Cancelled::catch(..); "
             "K2 Analysis holds a salsa::Snapshot and has no &mut method, AnalysisHost::apply_change takes &mut self and requests "
             "cancellation before writing; K3 the server maps a Cancelled error to REQUEST_CANCELLED before any other mapping. "
-            "One obligation per Analysis method / clause.",
+            "One obligation per Analysis method / clause. K4 no public Analysis method discards a Cancelled error (unwrap_or*, ok(), an Err arm that reaches Ok(..)).",
     "explanation": "Decides the narrow structural clauses that make cancellation surface as Err(Cancelled) rather than as an "
                    "unwinding panic and that make snapshot isolation salsa's job. The interleaving clauses of C12 (exactly the "
                    "pre-change answer or cancellation, prompt completion) quantify over schedules and are not decided.",
@@ -109,6 +110,7 @@ def run(F, res, tier):
            how="is::<Cancelled> sites %d, later downcasts %d" % (len(is_c), len(others)))
     res.ob("K3", "maps-to-request-cancelled", "a Cancelled error becomes ErrorCode::REQUEST_CANCELLED", code_ok, where=er.loc(),
            how="constant %s" % res.analysed.get("cancel_code_const"))
+    cancelled_not_swallowed(F, res, sorted(pub, key=lambda x: x.name), "K4", lambda f: "Analysis::%s" % f.name)
 
 
 def apply_unconditional(F):
@@ -128,3 +130,49 @@ def apply_unconditional(F):
         unconditional = bool(empties) and consumed <= looked
         how = "early return gated by %s; is_empty reads %s, apply consumes %s" % ([FL.gate_summary(g) for g in gs][:3], sorted(looked), sorted(consumed))
     return unconditional, how
+
+
+DISCARD = ("unwrap_or", "unwrap_or_default", "unwrap_or_else", "ok", "is_ok", "is_err", "unwrap", "expect", "map_or", "map_or_else", "or", "or_else")
+
+
+def cancelled_not_swallowed(F, res, fns, rule, what):
+    """a `Cancellable<T>` (= Result<T, salsa::Cancelled>) is only ever propagated: nothing turns its Err into a value
+    (unwrap_or_default, ok(), a `let Ok(x) = .. else { return Ok(..) }`), else a cancelled query is answered with a made-up
+    result instead of a cancellation"""
+    from lib.facts import op_local
+    for f in fns:
+        d = FL.Defs(f)
+        bad = []
+        for b, t in f.calls():
+            full = (t.get("fn") or {}).get("full", "") or ""
+            m = re.match(r"^core::result::Result::<.*Cancelled>::(\w+)", full)
+            if m and m.group(1) in DISCARD:
+                bad.append("%s() on a Cancellable at line %d" % (m.group(1), t["ln"]))
+        # a match on a Cancellable whose Err arm produces an Ok return value
+        for b in sorted(f.reachable()):
+            t = f.term(b)
+            if t["k"] != "switch":
+                continue
+            l = op_local(t["op"])
+            o = d.origin(l) if l is not None else {}
+            if not (o.get("k") == "rv" and o["rv"]["k"] == "discr" and "Result" in o["rv"]["of"]):
+                continue
+            pl = o["rv"]["place"]
+            ty = f.local_ty(pl["l"]) if not pl["p"] else ""
+            if "Cancelled" not in ty:
+                continue
+            err_tgts = [tg for v, tg in t["targets"] if v == 1] or [t["otherwise"]]
+            for e in err_tgts:
+                seen, st = {e}, [e]
+                while st:
+                    x = st.pop()
+                    for s_ in f.blocks[x]["stmts"]:
+                        if s_["k"] == "assign" and s_["place"]["l"] == 0 and not s_["place"]["p"] and s_["rv"]["k"] == "agg" and \
+                                (s_["rv"].get("adt") or "").endswith("result::Result") and s_["rv"].get("variant") == "Ok":
+                            bad.append("the Err arm of a match on a Cancellable at line %d reaches `Ok(..)` as the return value" % t["ln"])
+                    for y in f.succ(x):
+                        if y not in seen and y != b:
+                            seen.add(y)
+                            st.append(y)
+        res.ob(rule, "cancelled-propagates/%s" % f.path.rsplit("::", 1)[-1], "%s only propagates a cancellation (`?`), it never replaces it by a value" % what(f),
+               not bad, where=f.loc(), how="no discarding use of a Cancellable" if not bad else "; ".join(sorted(set(bad))[:3]))
